@@ -10,6 +10,17 @@ CHECKS = {
             "Bounded symbolic model checking: every batch of <=2 (quick) / <=3 (thorough) operations over 3 keys with symbolic values, symbolic do_deletes and symbolic abort position is executed on the real ScratchDB and compared with a last-write-wins model; the solver exhausts all paths.",
             "Trusts CrossHair's model of dict/int, CPython, z3. Wrapped db is a non-failing dict. Outside the bound: longer batches, >3 keys.", "4/C17"),
 }
+X_NOTE = "Trusts CPython, CrossHair 0.0.110's models of built-ins, z3 5.1, pyrlp/eth-hash as installed, the independent oracle vf/oracle/mpt.py (validated on two ethereum/tests vectors). Stored keys/values come from finite pools chosen by symbolic indices (exhausted by the solver-driven path search); pre-states are oracle-built canonical states, longer histories are covered by induction over single steps while contents stay in the family. Everything outside the stated bounds is not claimed."
+CHECKS.update({
+    "C01": ("X", "symbolic execution (CrossHair+z3): solver-exhausted one-step transitions from every canonical state of a contents family + genuinely symbolic lookup keys on canonical tries; native replay",
+            "Bounded symbolic model checking of map semantics: every pool operation (method/dict syntax, direct or batched, prune on/off) from every canonical state of the family, batches committed/aborted, and get/exists/in for a symbolic byte-string key (<=3/4 bytes) on every trie of the query family.", X_NOTE, "4/C01"),
+    "C02": ("X", "symbolic execution (CrossHair+z3): solver-exhausted one-step transitions, root compared with an independent Yellow-Paper MPT implementation",
+            "Bounded symbolic model checking: after every pool operation from every canonical state the root equals the Yellow-Paper root of the updated contents (values targeted at RLP lengths 31/32/33); history/order/batching/pruning independence by induction.", X_NOTE, "4/C02"),
+    "C05": ("X", "symbolic execution (CrossHair+z3): batch contents, exit kind, abort position and failing commit write are symbolic and exhausted; all-or-nothing specification checked natively on each path",
+            "Bounded symbolic model checking / fault enumeration by solver: batches of <=2 (3) operations from canonical states, normal exit, exception after every operation, every commit write failing; root, db, ref counts and later behaviour compared with the specification.", X_NOTE, "4/C05"),
+    "C06": ("X", "symbolic execution (CrossHair+z3): solver-exhausted one-step transitions and batches on pruning tries; db and ref counts compared with the oracle's exact live-node set and true counts",
+            "Bounded symbolic model checking: exactness of the pruning database and of the reference counts is an inductive invariant checked for every pool operation / batch from every canonical state of the family (shared hashed subtrees, threshold values, no-op updates included).", X_NOTE, "4/C06"),
+})
 NOT_YET = "check not built yet in this round (see DESIGN.md section 4 for the plan); not claimed"
 
 m = {
